@@ -57,7 +57,7 @@ class FactoryRun:
                 if task_status is not None:
                     # a task that takes `task_status`: start_task() returns only once it has called started()
                     await anyio.sleep(delay * TICK)
-                    task_status.started()
+                    task_status.started(("started", h))
                     run.log("startedCalled", h)
                 if "ends" in spec["beh"]:
                     await anyio.sleep((spec["beh"]["ends"] - (delay or 0)) * TICK)
@@ -107,6 +107,10 @@ class FactoryRun:
         self.log("spawn", h)
         handle = await self.factory.start_task(self.make_body(h), f"t{h}")
         self.handles[h] = handle
+        want = ("started", h) if self.specs[h].get("startDelay") else None
+        if getattr(handle, "start_value", "missing") != want or handle.name != f"t{h}":
+            self.log("probeFailed", h, f"the handle returned by start_task() has name {handle.name!r} and start_value "
+                                       f"{getattr(handle, 'start_value', 'missing')!r}; expected 't{h}' and {want!r}")
 
     def handler(self, exc: Exception) -> bool:
         e = next((n for n, c in enumerate(EXN) if type(exc) is c), 99)
@@ -138,7 +142,12 @@ class FactoryRun:
             from .kernel import CallableObject
 
             kw = {"exception_handler": CallableObject(self.handler, falsy=case["handler_obj"] == "falsy")}
-        self.factory = await owner.start_background_task_factory(**kw)
+        if self.case.get("factory_via_shortcut"):
+            from asphalt.core import start_background_task_factory
+
+            self.factory = await start_background_task_factory(**kw)       # the owner is the current context here
+        else:
+            self.factory = await owner.start_background_task_factory(**kw)
         t0 = anyio.current_time()
         for step in case["script"]:
             await anyio.sleep_until(t0 + step["at"] * TICK)
